@@ -312,12 +312,14 @@ class Fn:
 
     # ---- path search ---------------------------------------------------------------------
     def find_path(self, start, is_target, is_blocker=None, edge_ok=None, from_succ=None,
-                  sensitive=True, init_facts=None):
+                  sensitive=True, init_facts=None, require=None):
         """Search a CFG path starting right after event `start` (or at the beginning of block
         `from_succ` if given) that reaches an event satisfying is_target without passing an
         event satisfying is_blocker.  Returns (list of blocks, hit event) or None.
         is_target may also accept the pseudo events {'k':'exit'} (function exit) and
         {'k':'noreturn'} (block ending in a no-return call).
+        require: a (key, polarity) fact; a path ends as soon as that fact is killed (the
+        obligation "while this condition holds" is over).
         sensitive=True: branch conditions taken along the path are remembered (and killed by
         intervening writes); an edge that contradicts a remembered condition is infeasible and
         is not followed (correlated branches such as `if (!ok && s) ...; if (!s) return`)."""
@@ -347,6 +349,8 @@ class Fn:
                     lk = dstr(strip(e['l']))
                     constdesc[lk] = strip(e['l'])
                     facts.add((('const', lk), const_value(e['r'])))
+                if require is not None and require not in facts:
+                    return 'blocked', e
             return 'through', None
 
         constdesc = {}
